@@ -10,6 +10,7 @@ import (
 	"errors"
 	"fmt"
 	"io"
+	"os"
 	"sort"
 	"time"
 
@@ -27,6 +28,7 @@ type req struct {
 	flush   bool
 	oldtag  uint16
 	payload []byte
+	msg     p9p.Message
 	// bookkeeping from the client's point of view
 	class      string // "normal", "dup", "flush", "grey"
 	dispatched bool
@@ -65,6 +67,7 @@ type runner struct {
 	maxDepth  int
 	nFlushRunning, nReuse, nDup, nLateFin int
 	nFillers     int
+	sess         bool // ServeConn serves p9p.SSession(scripted Session) instead of the gate Handler
 	shutdownEOF  bool // end the schedule by a peer close (long schedules: a context cancel would cancel 65536 contexts)
 }
 
@@ -87,7 +90,8 @@ func frameBytes(tag uint16, msg p9p.Message) []byte {
 	return append(out, b...)
 }
 
-func start(rng *prng.R, gated bool, inner func(w *world) p9p.Handler) *runner {
+func start(rng *prng.R, gated bool, inner func(w *world) p9p.Handler, sessMode ...bool) *runner {
+	sess := len(sessMode) > 0 && sessMode[0]
 	// ServeConn gives version negotiation 1 s of wall-clock; on a stalled machine that can expire before
 	// the Rversion is written.  That is not what is checked here: start again (never an alarm).
 	var r *runner
@@ -98,9 +102,13 @@ func start(rng *prng.R, gated bool, inner func(w *world) p9p.Handler) *runner {
 		if inner != nil {
 			w.inner = inner(w)
 		}
-		r = &runner{rng: rng, w: w, gated: gated}
+		r = &runner{rng: rng, w: w, gated: gated, sess: sess}
+		var handler p9p.Handler = gateHandler{w}
+		if sess {
+			handler = p9p.SSession(&scriptSession{w})
+		}
 		go func() {
-			err := p9p.ServeConn(w.ctx, w.cn, gateHandler{w})
+			err := p9p.ServeConn(w.ctx, w.cn, handler)
 			w.mu.Lock()
 			w.ret, w.retErr = true, err
 			w.items = append(w.items, item{kind: itRet})
@@ -131,6 +139,9 @@ func start(rng *prng.R, gated bool, inner func(w *world) p9p.Handler) *runner {
 func (r *runner) newRequestMsg(rid int) p9p.Message {
 	f := p9p.Fid(rid)
 	g := r.rng
+	if r.sess {
+		return r.newSessRequestMsg(rid, g.Intn(11))
+	}
 	switch g.Intn(13) {
 	case 0:
 		return p9p.MessageTclunk{Fid: f}
@@ -178,7 +189,6 @@ func (r *runner) newResult(honourCancel bool) (hresult, sx.S, []byte) {
 	n := r.nonce
 	nb := make([]byte, 8)
 	binary.LittleEndian.PutUint64(nb, n)
-	rerr := func(text string) []byte { return payloadOf(p9p.MessageRerror{Ename: text}) }
 	k := g.Intn(10)
 	if honourCancel {
 		k = 9
@@ -203,31 +213,88 @@ func (r *runner) newResult(honourCancel bool) (hresult, sx.S, []byte) {
 		}
 		pb := payloadOf(m)
 		return hresult{msg: m}, sx.L(sx.Sym("msg"), sx.B(pb)), pb
-	case k < 7:
+	default:
+		e, s, pb := r.newErr(honourCancel)
+		return hresult{err: e}, s, pb
+	}
+}
+
+func (r *runner) newResultFor(q *req, honourCancel bool) (hresult, sx.S, []byte) {
+	if r.sess {
+		return r.newSessResult(q, honourCancel)
+	}
+	return r.newResult(honourCancel)
+}
+
+// well-known error values a handler may return as they are, or wrapped
+var knownErrs = []error{context.DeadlineExceeded, context.Canceled, os.ErrDeadlineExceeded, timeoutErr{}, io.EOF,
+	io.ErrUnexpectedEOF, io.ErrShortWrite, os.ErrNotExist, os.ErrPermission}
+var p9pErrs = []error{p9p.ErrNotfound, p9p.ErrPerm, p9p.ErrUnknownfid, p9p.ErrTimeout, p9p.ErrUnknownTag, p9p.ErrDuptag,
+	p9p.ErrBadoffset, p9p.ErrClosed, p9p.ErrUnknownMsg}
+
+// an error result: the error value, its sexp ((emsg ENAME) for a MessageRerror value or pointer - it
+// passes through - and (err TEXT) with TEXT = Error() for anything else, wrapped 9p errors included)
+func (r *runner) newErr(honourCancel bool) (error, sx.S, []byte) {
+	g := r.rng
+	r.nonce++
+	n := r.nonce
+	rerr := func(text string) []byte { return payloadOf(p9p.MessageRerror{Ename: text}) }
+	plain := func(e error) (error, sx.S, []byte) {
+		text := e.Error()
+		return e, sx.L(sx.Sym("err"), sx.Str(text)), rerr(text)
+	}
+	k := g.Intn(12)
+	if honourCancel {
+		k = 11
+	}
+	switch {
+	case k < 3:
 		text := fmt.Sprintf("%s #%d", errTexts[g.Intn(len(errTexts))], n)
 		if g.Bool() {
-			return hresult{err: p9p.MessageRerror{Ename: text}}, sx.L(sx.Sym("emsg"), sx.Str(text)), rerr(text)
+			return p9p.MessageRerror{Ename: text}, sx.L(sx.Sym("emsg"), sx.Str(text)), rerr(text)
 		}
-		return hresult{err: &p9p.MessageRerror{Ename: text}}, sx.L(sx.Sym("emsg"), sx.Str(text)), rerr(text)
-	case k == 7 && !honourCancel:
+		return &p9p.MessageRerror{Ename: text}, sx.L(sx.Sym("emsg"), sx.Str(text)), rerr(text)
+	case k < 5:
 		// an ordinary error that WRAPS a 9p error: the handler returned the outer error, so the reply
 		// must carry the outer error's Error() text, not the wrapped MessageRerror
 		inner := []p9p.MessageRerror{{Ename: "file not found"}, {Ename: "permission denied"}, {Ename: fmt.Sprintf("inner %d", n)}}[g.Intn(3)]
-		var e error
 		switch g.Intn(5) {
 		case 0:
-			e = fmt.Errorf("open %q #%d: %w", "notes.txt", n, inner)
+			return plain(fmt.Errorf("open %q #%d: %w", "notes.txt", n, inner))
 		case 1:
-			e = fmt.Errorf("walk #%d: %w", n, &inner)
+			return plain(fmt.Errorf("walk #%d: %w", n, &inner))
 		case 2:
-			e = errors.Join(fmt.Errorf("first #%d", n), inner)
+			return plain(errors.Join(fmt.Errorf("first #%d", n), inner))
 		case 3:
-			e = wrapErr{fmt.Sprintf("custom #%d", n), inner}
+			return plain(wrapErr{fmt.Sprintf("custom #%d", n), inner})
 		default:
-			e = fmt.Errorf("outer #%d: %w", n, fmt.Errorf("middle: %w", &inner))
+			return plain(fmt.Errorf("outer #%d: %w", n, fmt.Errorf("middle: %w", &inner)))
 		}
-		text := e.Error()
-		return hresult{err: e}, sx.L(sx.Sym("err"), sx.Str(text)), rerr(text)
+	case k < 7:
+		// well-known error values (time-outs, cancellation, EOF ...), wrapped - and now and then bare:
+		// the reply carries the text of the error the handler returned, whatever it Is or wraps
+		e := knownErrs[g.Intn(len(knownErrs))]
+		switch g.Intn(5) {
+		case 0:
+			return plain(e)
+		case 1:
+			return plain(wrapErr{fmt.Sprintf("op #%d", n), e})
+		case 2:
+			return plain(errors.Join(fmt.Errorf("first #%d", n), e))
+		default:
+			return plain(fmt.Errorf("read fid %d #%d: %w", g.Intn(100), n, e))
+		}
+	case k < 9:
+		// the package's own error values: bare (MessageRerror values pass through with their Ename;
+		// ErrClosed is a plain error) and wrapped (Error() text)
+		e := p9pErrs[g.Intn(len(p9pErrs))]
+		if g.Intn(3) == 0 && e != p9p.ErrDuptag && e != p9p.ErrUnknownTag { // (bare, those two would be indistinguishable from the loop's own replies)
+			if me, ok := e.(p9p.MessageRerror); ok {
+				return e, sx.L(sx.Sym("emsg"), sx.Str(me.Ename)), rerr(me.Ename)
+			}
+			return plain(e)
+		}
+		return plain(fmt.Errorf("session #%d: %w", n, e))
 	default:
 		text := fmt.Sprintf("%s #%d", errTexts[g.Intn(len(errTexts))], n)
 		if honourCancel {
@@ -236,7 +303,7 @@ func (r *runner) newResult(honourCancel bool) (hresult, sx.S, []byte) {
 		if g.Intn(8) == 0 {
 			text += string(make([]byte, 300)) // long text with NUL bytes
 		}
-		return hresult{err: errors.New(text)}, sx.L(sx.Sym("err"), sx.Str(text)), rerr(text)
+		return plain(errors.New(text))
 	}
 }
 
@@ -274,12 +341,18 @@ func (r *runner) running() []*req {
 }
 
 func (r *runner) freeTag() uint16 {
+	span := 24
+	for _, q := range r.reqs {
+		if q.replies == 0 {
+			span += 2 // always far more tags to choose from than are in use
+		}
+	}
 	for {
 		var t uint16
 		if r.rng.Intn(4) == 0 {
 			t = uint16(r.rng.PickU64(0, 1, 0xfffe, 0xffff, 0x100, 0xff))
 		} else {
-			t = uint16(r.rng.Intn(24))
+			t = uint16(r.rng.Intn(span))
 		}
 		busy := false
 		for _, q := range r.reqs {
@@ -415,10 +488,28 @@ func (r *runner) onTake(it item) {
 	}
 	var hit *req
 	// 1. somebody's handler result (results are unique by construction)
+	// (not every result is unique - Rclunk, a bare context.DeadlineExceeded: prefer a candidate that is
+	// still waiting for its reply, oldest first)
+	best := -1
 	for _, q := range cands {
 		if q.resBytes != nil && eq(q.resBytes, it.payload) {
-			hit = q
+			score := 0
+			if q.replies == 0 {
+				score = 1
+				if !(q.flushedBy != nil && q.flushedBy.ackTaken) {
+					score = 2
+				}
+			}
+			if score > best {
+				hit, best = q, score
+			}
 		}
+	}
+	// a handler may return the very errors the loop itself replies with (ErrDuptag, ErrUnknownTag): a
+	// match with a request that has its reply already gives way to the loop's own replies below
+	var answered *req
+	if best == 0 {
+		answered, hit = hit, nil
 	}
 	if hit == nil && eq(it.payload, plDup) {
 		// requests are processed in the order sent: the oldest unanswered, undispatched one with this tag
@@ -477,6 +568,9 @@ func (r *runner) onTake(it item) {
 		}
 	}
 	if hit == nil {
+		hit = answered
+	}
+	if hit == nil {
 		r.fail("c06.reply-unattributable", fmt.Sprintf("frame tag=%d payload=%x is not the result of any request with that tag (candidates %s)", it.tag, it.payload, descr(cands)))
 		return
 	}
@@ -493,6 +587,10 @@ func (r *runner) onTake(it item) {
 // ---- actions
 
 func (r *runner) send(tag uint16, flush bool, oldtag uint16, class string, victim *req, split bool) {
+	r.sendMsg(tag, flush, oldtag, class, victim, split, nil)
+}
+
+func (r *runner) sendMsg(tag uint16, flush bool, oldtag uint16, class string, victim *req, split bool, forced p9p.Message) {
 	rid := len(r.reqs)
 	q := &req{rid: rid, tag: tag, flush: flush, oldtag: oldtag, class: class, victim: victim}
 	var msg p9p.Message
@@ -500,9 +598,12 @@ func (r *runner) send(tag uint16, flush bool, oldtag uint16, class string, victi
 	if flush {
 		msg = p9p.MessageTflush{Oldtag: p9p.Tag(oldtag)}
 		ks = sx.L(sx.Sym("flush"), sx.U(uint64(oldtag)))
+	} else if forced != nil {
+		msg = forced
 	} else {
 		msg = r.newRequestMsg(rid)
 	}
+	q.msg = msg
 	q.payload = payloadOf(msg)
 	if !flush {
 		ks = sx.L(sx.Sym("req"), sx.B(q.payload))
@@ -542,7 +643,7 @@ func (r *runner) send(tag uint16, flush bool, oldtag uint16, class string, victi
 }
 
 func (r *runner) finish(q *req, honour bool) {
-	res, s, pb := r.newResult(honour)
+	res, s, pb := r.newResultFor(q, honour)
 	q.released = true
 	q.resBytes = pb
 	iv := r.w.byRid[q.rid]
@@ -794,7 +895,7 @@ func (r *runner) finishMany(qs []*req) {
 		if iv == nil || q.released {
 			continue
 		}
-		res, s, pb := r.newResult(false)
+		res, s, pb := r.newResultFor(q, false)
 		q.released = true
 		q.resBytes = pb
 		if iv.ctx.Err() != nil {
@@ -810,4 +911,15 @@ func (r *runner) finishMany(qs []*req) {
 		x.iv.gate <- x.res
 	}
 	r.observe(sx.List(append([]sx.S{sx.Sym("multi")}, fins...)), "fin-many", nil)
+}
+
+// sendKind sends a request of the given session kind on the tag (sess mode)
+func (r *runner) sendKind(tag uint16, kind int) {
+	st, _ := r.classify(tag)
+	class := map[string]string{"free": "normal", "held": "dup", "grey": "grey"}[st]
+	exact := !r.faulted && (!r.gated || (!r.w.cn.writePending() && r.unprocessed() == 0))
+	if !exact {
+		class = "grey"
+	}
+	r.sendMsg(tag, false, 0, class, nil, false, r.newSessRequestMsg(len(r.reqs), kind))
 }
